@@ -121,6 +121,11 @@ pub struct Trace {
     pub leaked_ids: Vec<u64>,
 }
 
+/// The (never inserted) key looked up right after every clear(); its index is shared with no key of the universe.
+pub fn after_clear_key(universe: u64) -> u64 {
+    universe * 2 + 10
+}
+
 fn probe(d: &dyn Drv, universe: u64, collide: bool, zero_even: bool) -> ProbeObs {
     let mut p = ProbeObs::default();
     let kb = crate::val::Kb { collide, zero_even };
@@ -243,6 +248,8 @@ pub fn run_script(flavor: Flavor, s: &Script) -> Trace {
                 if let Err(e) = d.clear() {
                     ret_err = Some(e);
                 }
+                // a look-up the instant clear() has returned: it belongs to the new counting period
+                let _ = d.get(after_clear_key(s.universe));
             }
             Step::UpdateMaxCost { m } => d.update_max_cost(*m),
             Step::Probe => {}
@@ -331,6 +338,10 @@ pub struct Profile {
     pub coster: bool,
     pub big_costs: bool,
     pub collide: bool,
+    /// out of 10 histories: colliding key builder (distinct non-zero conflict hashes) although `collide` is off
+    pub collide_share: u64,
+    /// out of 12 histories: a vetoing validator although `validators` is off
+    pub validator_share: u64,
     pub steps: (u64, u64),
     pub intervals_ms: &'static [u64],
     pub default_interval_share: u64, // out of 10 scripts
@@ -357,15 +368,17 @@ pub fn profile(name: &str) -> Profile {
         coster: false,
         big_costs: false,
         collide: false,
+        collide_share: 0,
+        validator_share: 2,
         steps: (40, 120),
         intervals_ms: INTERVALS,
         default_interval_share: 2,
     };
     match name {
-        "C03" => Profile { name: "C03", capacity: "ample", ttl_share: 7, w_advance: 40, w_clear: 4, ..base },
-        "C04" => Profile { name: "C04", ..base },
-        "C05" => Profile { name: "C05", ttl_share: 9, w_advance: 36, w_insert: 36, w_if_present: 3, w_getmut: 1, w_lookups: 1, default_interval_share: 3, ..base },
-        "C09" => Profile { name: "C09", validators: true, w_if_present: 22, w_insert: 30, w_remove: 10, capacity: "ample", fixed_cost_per_key: false, coster: true, ..base },
+        "C03" => Profile { name: "C03", validator_share: 4, capacity: "ample", ttl_share: 7, w_advance: 40, w_clear: 4, ..base },
+        "C04" => Profile { name: "C04", universe: (1, 10), ..base },
+        "C05" => Profile { name: "C05", collide_share: 2, ttl_share: 9, w_advance: 36, w_insert: 36, w_if_present: 3, w_getmut: 1, w_lookups: 1, default_interval_share: 3, ..base },
+        "C09" => Profile { name: "C09", collide_share: 3, validators: true, w_if_present: 22, w_insert: 30, w_remove: 10, capacity: "ample", fixed_cost_per_key: false, coster: true, ..base },
         "C11" => Profile { name: "C11", w_clear: 9, ttl_share: 6, ..base },
         "C16" => Profile { name: "C16", capacity: "ample", fixed_cost_per_key: false, coster: true, big_costs: true, w_if_present: 10, w_advance: 12, ttl_share: 3, ..base },
         "C17" => Profile { name: "C17", capacity: "evict", fixed_cost_per_key: false, w_lookups: 14, w_clear: 3, universe: (4, 14), big_costs: true, ..base },
@@ -374,7 +387,7 @@ pub fn profile(name: &str) -> Profile {
         "C18" => Profile { name: "C18", collide: true, capacity: "ample", universe: (4, 12), w_getmut: 8, w_if_present: 10, ..base },
         "C19" => Profile { name: "C19", capacity: "ample", fixed_cost_per_key: false, coster: true, validators: true, w_clear: 4, w_lookups: 4, ..base },
         "C15" => Profile { name: "C15", capacity: "ample", w_lookups: 40, w_insert: 16, w_advance: 8, w_clear: 3, w_if_present: 1, w_getmut: 6, ..base },
-        "C02" => Profile { name: "C02", w_getmut: 10, w_insert: 36, w_remove: 12, w_clear: 4, ..base },
+        "C02" => Profile { name: "C02", validator_share: 4, w_getmut: 10, w_insert: 36, w_remove: 12, w_clear: 4, ..base },
         "C08" => Profile { name: "C08", capacity: "evict", fixed_cost_per_key: false, validators: true, w_remove: 12, universe: (4, 12), ..base },
         _ => base,
     }
@@ -413,12 +426,12 @@ pub fn generate(p: &Profile, rng: &mut Rng, history_no: u64, item_size: usize) -
         metrics: true,
         ignore_internal,
         cleanup: if default_interval { None } else { Some(Duration::from_millis(interval_ms)) },
-        collide: p.collide,
+        collide: p.collide || history_no % 10 < p.collide_share,
         collide_zero_even: p.collide && history_no % 2 == 1,
         manual_ticker: true,
     };
     let start_ns = 1_700_000_000 * NS + rng.below(1000) * NS + *rng.pick(OFFSETS_NS);
-    let vld_mode = if p.validators && rng.chance(2, 3) { rng.range(1, 4) as u8 } else { 0 };
+    let vld_mode = if (p.validators && rng.chance(2, 3)) || (!p.validators && (history_no / 10) % 12 < p.validator_share) { rng.range(1, 4) as u8 } else { 0 };
     let nsteps = rng.range(p.steps.0, p.steps.1);
     let mut steps = Vec::with_capacity(nsteps as usize);
     let mut idc = (history_no << 24) | 1;
